@@ -195,16 +195,14 @@ Section Scan.
     unfold slice; rewrite skipn_nil, firstn_nil. unfold s_position. destruct (c_from_end c); reflexivity.
   Qed.
 
-  Lemma m_count_eq : seq_ascii (c_seq c) = true -> m_count c v = RInt (Z.of_nat (s_count (s_match c) w)).
+  Lemma m_count_eq : m_count c v = RInt (Z.of_nat (s_count (s_match c) w)).
   Proof.
-    intros Ha. unfold m_count. cbn [v_start v_end v_from_end].
-    assert (norm_end (go_len (c_seq c)) (c_end c) = s_end c l) as Hne.
-    { rewrite (go_len_ascii _ Ha). unfold s_end. apply norm_end_in_range. exact B2. }
+    unfold m_count. cbn [v_start v_end v_from_end].
+    assert (norm_end (length l) (c_end c) = s_end c l) as Hne.
+    { unfold s_end. apply norm_end_in_range. exact B2. }
     rewrite matchers_agree by exact NI.
     destruct (c_seq c) eqn:S; cbn [elems] in *;
-      try (rewrite Hne;
-           match goal with |- context [(length ?a <? ?b)%nat] => destruct (Nat.ltb_spec (length a) b) end; [lia|]; cbn [andb];
-           rewrite count_loop_eq; unfold s_count;
+      try (rewrite Hne; rewrite count_loop_eq; unfold s_count;
            destruct (c_from_end c); [rewrite filter_rev_length|]; reflexivity).
     unfold slice; rewrite skipn_nil, firstn_nil. reflexivity.
   Qed.
@@ -230,6 +228,6 @@ Proof.
   - rewrite m_find_eq; auto; now rewrite F.
   - rewrite m_position_eq; auto; now rewrite F.
   - rewrite m_position_eq; auto; now rewrite F.
-  - rewrite m_count_eq; auto; try (now rewrite F). cbn in D. apply andb_true_iff in D as [_ D]. exact D.
+  - rewrite m_count_eq; auto; now rewrite F.
   - rewrite m_count_eq; auto; now rewrite F.
 Qed.
